@@ -81,7 +81,7 @@ class Chooser:
         return [x for x in seq if self.bool(p)]
 
 
-def hyp_run(prop, seed_value, max_examples, stats, make_case=None):
+def hyp_run(prop, seed_value, max_examples, stats, make_case=None, shrink=True):
     """Run prop(ch) under Hypothesis. prop returns normally (pass), or raises Violation/Discard/Inconclusive.
     On violation Hypothesis shrinks; the minimal failing trace is recorded in stats.violations."""
     holder = {"last": None}
@@ -89,7 +89,7 @@ def hyp_run(prop, seed_value, max_examples, stats, make_case=None):
     @hseed(seed_value)
     @settings(max_examples=max_examples, database=None, deadline=None, derandomize=False,
               report_multiple_bugs=False, suppress_health_check=list(HealthCheck),
-              phases=[Phase.generate, Phase.shrink], print_blob=False)
+              phases=[Phase.generate, Phase.shrink] if shrink else [Phase.generate], print_blob=False)
     @given(st.data())
     def t(data):
         ch = Chooser(data=data)
@@ -118,3 +118,21 @@ def hyp_run(prop, seed_value, max_examples, stats, make_case=None):
         case.update(v.detail.get("case", {}))
         stats.violations.append({"case": case, "msg": v.msg, "selfevident": v.detail.get("selfevident", False)})
     return stats
+
+
+class SeededChooser(Chooser):
+    """the same interface driven by a seeded PRNG instead of Hypothesis: for checks whose single case is so expensive (a C++
+    compile) that library shrinking is not affordable; the trace still allows exact replay"""
+
+    def __init__(self, seed):
+        import random
+        Chooser.__init__(self, trace=[])
+        self.replay = None
+        self.rng = random.Random(seed)
+
+    def int(self, lo, hi):
+        if hi <= lo:
+            return lo
+        v = self.rng.randint(lo, hi)
+        self.trace.append(v)
+        return v
